@@ -408,6 +408,18 @@ def run(tier, seed):
         if not r2.get("Ok"):
             efail.append({"problem": "the complete output of -n -p (with comments and the compiled play) is not accepted as a configuration",
                           "error": r2.get("ErrFull") or r2.get("Panic"), "stdout": r["stdout"][-2000:]})
+    # the configuration read from standard input (the default when no file is named) and printed with -n -p
+    import subprocess
+    for g, r1 in e2e_cases[:3]:
+        if len(g["files"]) != 1 or g["incdirs"]:
+            continue
+        argv = ["-n", "-p"] + [x for d in g["defines"] for x in ("-D", d)]
+        prc = subprocess.run([e2e.BIN] + argv, input=g["files"][g["main"]], capture_output=True, text=True, timeout=30, cwd="/tmp")
+        rep.count("e2e: shakespeare -n -p < configuration")
+        r2 = impl.call("parse", Args={"Text": prc.stdout, "SkipComments": True})
+        if prc.returncode != 0 or not r2.get("Ok"):
+            efail.append({"problem": "the output of `shakespeare -n -p` reading the configuration from standard input is not accepted as a configuration",
+                          "error": (r2.get("ErrFull") or r2.get("Panic") or prc.stderr)[:600], "stdout": prc.stdout[:400], "config": g["files"], "defines": g["defines"]})
     rr = results[-1]
     rep.count("e2e: one real run (result.js Config)")
     hp = impl.call("parse", Args={"Text": RUN_CFG, "SkipComments": True})
